@@ -880,7 +880,11 @@ func (ix *Index) populateDeleteClaim(ctx context.Context, cl schema.Claim, vr *j
 		log.Print(fmt.Errorf("no valid target for delete claim %v", br))
 		return nil
 	}
+	// GetBlobMeta reads the corpus, if any, which requires the index lock
+	// (another blob may be getting merged into the corpus right now).
+	ix.RLock()
 	meta, err := ix.GetBlobMeta(ctx, target)
+	ix.RUnlock()
 	if err != nil {
 		if errors.Is(err, os.ErrNotExist) {
 			if err := ix.noteNeeded(br, target); err != nil {
